@@ -8,6 +8,7 @@ from vt.verify import Clause
 from contracts import gmm as G
 from contracts import kmeans as KM
 from contracts import linear_scoring as LS
+from contracts import ivector as IV
 from props.common import new_interp, collapse, guard, bounded
 from props.effects import effects_check
 
@@ -138,11 +139,35 @@ def kmeans_entry(ctx):
 
 BOUNDED = [bounded("fa_repro.py", "inputs_unchanged", "C19.fa",
                    "ISV/JFA fit, enroll and score leave the statistics and labels bit-identical; trained U, V, D share no memory with them")]
-GROUPS = [guard(gmm_fit), guard(map_prior_copy), guard(stats_ops), guard(scoring), guard(kmeans_entry)]
+def ivector_entry(ctx):
+    """IVectorMachine.fit (one full iteration, list input, with and without covariance updating), project:
+    the UBM, the statistics and their arrays are neither written nor captured"""
+    out = []
+    for upd in (True, False):
+        I = new_interp()
+        F = IV.facts()
+
+        def mk(I=I):
+            return {"X": IV.mk_stats_list(I), "ubm": G.mk_gmm(I, "u")}
+
+        def thunk(I=I, upd=upd, mk=mk):
+            ins = mk()
+            m = IV.mk_machine(I, update_sigma=upd, trained=False)
+            m.fields["ubm"] = ins["ubm"]
+            I.call(K.lookup(I, "ivector.IVectorMachine.fit"), [m, ins["X"]], {})
+            pr = I.call(K.lookup(I, "ivector.IVectorMachine.project"), [m, IV.mk_one_stats(I)], {})
+            return (ins, [Obj(m.cls, {k: v for k, v in m.fields.items() if k != "ubm"}), pr])
+        effects_check(I, "C19.ivector.fit[update_sigma=%s]" % upd, thunk, lambda o: True, F, out, unchanged=mk)
+    return collapse(out, "C19.ivector", "i-vector training (one full EM iteration inlined, update_sigma on and off) and projection leave the UBM and the statistics "
+                    "unchanged and unaliased: T and sigma share no memory with the UBM's variances")
+
+
+GROUPS = [guard(ivector_entry), guard(gmm_fit), guard(map_prior_copy), guard(stats_ops), guard(scoring), guard(kmeans_entry)]
 SHARED = [("C02", "add_post", ["C02.add.frame", "C02.iadd.frame"]), ("C05", "mstep_map", ["C05.frame"]), ("C03", "mstep_ml", ["C03.m.frame"]),
           ("C08", "post", ["C08.frame"])]
-REPLAY = [("C19", "effects_repro.py", "inputs", {})]
+REPLAY = [("C19.fa", "fa_repro.py", "inputs_unchanged", {}), ("C19", "effects_repro.py", "inputs", {}), ("C0", "effects_repro.py", "inputs", {})]
 TRUSTED = ["library table: arithmetic, np.where, vstack, np.array, .flatten(), copy.deepcopy, boolean/fancy indexing return fresh arrays; "
            "asarray, atleast_2d, .T, transpose, reshape, swapaxes, broadcast_to, basic slicing, .ravel() return views",
            "dask_ml k_init returns the caller's array for an ndarray init"]
 ASSUMPTIONS = ["mutation inside third-party code is not analysed", "k-means with max_iter >= 1"]
+XCHECK = ['gmm', 'kmeans', 'linear', 'ivector']
